@@ -1,4 +1,5 @@
 import ExprModel.Drv.Arith
+import ExprModel.Drv.Source
 /-
 The model driver: one request per line on stdin (an S-expression `(tag arg…)`), one response per line
 on stdout.  Core-only (no Mathlib, no proof modules), so it links as a `lean_exe` and keeps building
@@ -7,7 +8,8 @@ when a proof breaks.  Each `ExprModel/Drv/*.lean` exports a handler table; add y
 open ExprModel
 
 def handlers : List (String × (List Sexp → Sexp)) :=
-  Drv.arithHandlers
+  Drv.arithHandlers ++
+  Drv.sourceHandlers
 
 def dispatch (req : Sexp) : Sexp :=
   match req with
